@@ -17,6 +17,30 @@ PARSER = "transpile/parser.py"
 EMITTER = "transpile/emitter.py"
 
 
+def eval_list_get(variants):
+    """every variant of the element getter evaluated (C semantics) on lists of 1..4 elements for every valid index, positive
+    and negative: the element Python's indexing yields.  Returns None when all agree, else a description"""
+    from .. import ckern
+    for f in variants:
+        pn = [p_[0] for p_ in f.get("params", [])]
+        if len(pn) != 2:
+            return f"getter takes {pn}"
+        for size in (1, 2, 3, 4):
+            data = [10 * (i_ + 1) for i_ in range(size)]
+            for idx in range(-size, size):
+                k = ckern.Kern(env={pn[0]: {"data": list(data), "size": size, "__types__": {"size": "size_t"}}, pn[1]: idx}, types={pn[1]: "int"})
+                try:
+                    k.block(f["body"])
+                    got = "<no return>"
+                except ckern._Return as r_:
+                    got = r_.v
+                except ckern.KernUnsupported as e:
+                    return f"getter left the evaluable subset: {e}"
+                if got != data[idx]:
+                    return f"__redu_list_get(list of {size}, {idx}) yields {got!r}; Python's xs[{idx}] is {data[idx]}"
+    return None
+
+
 def list_helpers(em):
     snippet = lit.table(em, "LIST_HELPER_SNIPPET")
     names = sorted(set(re.findall(r"\b(__redu_(?:make_list|list_\w+|len))\s*\(", snippet)))
@@ -241,9 +265,8 @@ def run(cx):
     bodies = {repr(v["body"]) for v in g}
     r.check(len(g) >= 2 and len(bodies) == 1, "__redu_list_get/const-and-mutable-agree", (em.rel, line), f"{len(g)} getters with {len(bodies)} distinct bodies")
     if g:
-        b = g[0]["body"]
-        okn = b and b[0]["k"] == "if" and show(b[0]["cond"]) == "(index < 0)" and any("index += (int)list.size" in show(e) or "index += " in show(e) for s in b[0]["then"] for e in stmt_exprs(s))
-        r.check(bool(okn), "__redu_list_get/negative-index-normalised", (em.rel, line), "negative indices must be offset by the list size")
+        why = eval_list_get(g)
+        r.check(why is None, "__redu_list_get/negative-index-normalised", (em.rel, line), f"negative indices must count from the end in both getters: {why}")
 
     # ---- C09-BOUNDS --------------------------------------------------------------------------
     r = cx.rule("C09-BOUNDS", "for every list size 0..4 (and every range(start, stop, step) on a grid) each helper's buffer indices stay inside the extent it allocated, nothing is used after delete[] and nothing is freed twice (abstract interpretation with exact unrolling and allocation tracking)", floor=60, exhaustive=True)
@@ -360,4 +383,4 @@ def run(cx):
     sz = [n for n in walk_local(ha) if isinstance(n, ast.If) and "expected != new_length" in norm(n.test) and any(isinstance(x, ast.Raise) for x in n.body)]
     from . import c03
     c03.evaluator_no_alias(r, pm)
-    r.check(len(sz) == 1 and c03.list_size_guard_ok(pm), "_handle_assignment_ast/size-mismatch-rejected", (pm, ha), "re-assigning a list with a different static length must be rejected (the tracked length feeds folded len())")
+    r.check(c03.list_size_guard_ok(pm), "_handle_assignment_ast/size-mismatch-rejected", (pm, ha), "re-assigning a list with a different static length must be rejected (the tracked length feeds folded len())")
